@@ -13,7 +13,7 @@ sed -i "s#$SRC#$D#g; s#$AWT#$WT#g" $D/demo.py 2>/dev/null
 ( cd $WT && PYTHONPATH=$WT/src timeout 300 /venv/bin/python $D/demo.py >/tmp/keep-clean-$P$X.log 2>&1 ); RC_CLEAN=$?
 git -C $WT apply $D/patch.diff; RC_APPLY=$?
 ( cd $WT && PYTHONPATH=$WT/src timeout 300 /venv/bin/python $D/demo.py >/tmp/keep-bad-$P$X.log 2>&1 ); RC_BAD=$?
-TESTS=$(cd $WT && timeout 900 /venv/bin/python -m pytest -q -p no:cacheprovider --timeout=900 --continue-on-collection-errors 2>&1 | tail -1)
+TESTS=$(cd $WT && PYTHONPATH=$WT/src timeout 900 /venv/bin/python -m pytest tests/earthkit_workflows -q -p no:cacheprovider --timeout=900 --continue-on-collection-errors 2>&1 | tail -1)
 FILES=$(git -C $WT diff --stat | tail -1)
 git -C /repo worktree remove --force $WT; rmdir $(dirname $WT) 2>/dev/null; git -C /repo worktree prune
 sed -i "s#$WT#/path/to/worktree#g" $D/demo.py
@@ -23,6 +23,6 @@ import json,sys
 p,i,needs,rc0,rc1,tests,files=sys.argv[1:8]
 json.dump({"property":p,"id":i,"needs_to_manifest":needs,"confirmed":{"demo_rc_without_change":int(rc0),"demo_rc_with_change":int(rc1),
   "existing_tests_with_change":tests.strip(),"diffstat":files.strip(),
-  "how":"fresh scratch worktree of /repo HEAD: demo run, git apply patch.diff, demo run, the pinned pytest command (whole suite, --continue-on-collection-errors); worktree removed"},
+  "how":"fresh scratch worktree of /repo HEAD: demo run, git apply patch.diff, demo run, the 133 pinned tests (tests/earthkit_workflows) with the worktree src first on the path (the pinned command alone would import /repo/src); tests/cascade compared with the clean tree by tools/reverify_seeds.sh; worktree removed"},
   "origin":"independent sub-agent given only the property record"}, open(f"/verif/seeded/{i}/meta.json","w"), indent=1)
 PY
